@@ -126,9 +126,9 @@ class Printer:
         if t == 'close':
             self.nvar += 1
             names = ["c%d" % k for k, _ in s[1]]
-            # the G markers (registration of the injected defers) follow the declaration, in the order in which
-            # visit_close injects the defers: variables typed in the first pass, then the late ones
-            order = [k for k, late in s[1] if not late] + [k for k, late in s[1] if late]
+            # the G markers (registration of the injected defers) follow the declaration, in declaration order
+            # (visit_close keeps the injected defers in declaration order whatever the resolution order)
+            order = [k for k, late in s[1]]
             return [p + "local " + ", ".join(n + " <close>" for n in names) + " = " +
                     ", ".join(("zzmkl(%d)" if late else "zzmk(%d)") % k for k, late in s[1])] + \
                    [p + " ".join("zzrg(%d)" % k for k in order)]
@@ -313,10 +313,11 @@ def c_tokens(name, funcs, depth=0):
 class Gen:
     """Random programs obeying the placement rules of the analyzer (break/continue inside a loop of the
     same function, `in` only inside a do-expression whose block ends with `in`, fallthrough last in a
-    case followed by another block) and, unless asked otherwise, the two restrictions of the partial
-    theorem (deferred blocks do not jump out of themselves and contain no defer)."""
+    case followed by another block, no return/break/continue/in leaving a defer block).  Inside deferred
+    blocks no early `in` and no break-inside-switch are generated: such a block emitted at two exits gets
+    duplicate C labels (a C03 matter, unrelated to the clean-up placement)."""
 
-    def __init__(self, rng, allow_ft_defer=True, allow_escape=False, allow_nested_defer=False, any_late=False, maxdepth=4):
+    def __init__(self, rng, allow_ft_defer=True, allow_escape=False, allow_nested_defer=True, any_late=True, maxdepth=4):
         self.rng = rng
         self.n = 0
         self.allow_ft_defer = allow_ft_defer
@@ -356,7 +357,7 @@ class Gen:
             if r.random() < 0.7:
                 return [('defer', self.fresh(), [('emit', self.fresh())] if r.random() < 0.7 else [])]
             if r.random() < 0.3:
-                return [('close', [(self.fresh(), False), (self.fresh(), r.random() < 0.3)])]
+                return [('close', [(self.fresh(), r.random() < 0.3), (self.fresh(), r.random() < 0.3)])]
             return []
         cases = []
         for _ in range(r.randint(1, 3)):
@@ -368,15 +369,14 @@ class Gen:
                 b.append(ex())
             cases.append((b, False))
         dflt = (md() + [ex()]) if r.random() < 0.5 else []
-        cases = [(strip_stale_lates(b), ft) for b, ft in cases]
-        inner = strip_stale_lates(md() + [('emit', self.fresh()), ('switch', self.fresh(), cases, dflt)] + md() + [('emit', self.fresh())])
+        inner = md() + [('emit', self.fresh()), ('switch', self.fresh(), cases, dflt)] + md() + [('emit', self.fresh())]
         k = r.choice(['while', 'repeat', 'for', 'while'])
         if k == 'while': loop = ('while', self.fresh(), inner)
         elif k == 'repeat': loop = ('repeat', inner, self.fresh())
         else: loop = ('for', r.randint(1, 3), inner)
         if r.random() < 0.3:
             loop = ('do', md() + [loop])
-        body = strip_stale_lates(md() + [loop, ('emit', self.fresh())] + md())
+        body = md() + [loop, ('emit', self.fresh())] + md()
         if not void:
             body.append(('return', self.fresh()))
         return (void, body)
@@ -391,7 +391,7 @@ class Gen:
             b.append(s)
             if s[0] in ('break', 'continue', 'return', 'retvoid', 'in') and self.rng.random() < 0.85:
                 break
-        return strip_stale_lates(b)
+        return b
 
     def exit_stmt(self, cx):
         opts = []
